@@ -147,7 +147,7 @@ func c18H2CComposition(R *ev.Run) {
 				mu.Unlock()
 				return c18DeadConn{}, nil
 			}}
-			opts := []func(*vegeta.Attacker){vegeta.Client(&http.Client{Transport: tr}), vegeta.Workers(1), vegeta.MaxWorkers(1), vegeta.Timeout(2 * time.Second)}
+			opts := []func(*vegeta.Attacker){vegeta.Client(&http.Client{Transport: tr}), vegeta.Workers(1), vegeta.MaxWorkers(1), vegeta.Timeout(time.Minute)} // (the hits fail at once on the dead connection; the timeout only bounds a stuck run)
 			if withDNS {
 				opts = append(opts, vegeta.DNSCaching(0))
 			}
